@@ -470,6 +470,17 @@ extern (*analyticFieldEngine).partitionKey
 
 pure github.com/rulego/streamsql/types.AnalyticSelfTokenN
 
+extern lookupRowField
+  props C14
+  option pure
+
+func resolvePartitionField
+  props C14
+  ensures the-exact-column-wins: dom(row, key) ==> result == row[key]
+  ensures then-the-nested-path: !dom(row, key) && second(fieldpath.GetNestedField(row, key)) ==> result == fieldpath.GetNestedField(row, key)
+  ensures then-the-suffix-fallback: !dom(row, key) && !second(fieldpath.GetNestedField(row, key)) && second(lookupRowField(row, key)) ==> result == lookupRowField(row, key)
+  ensures otherwise-null: !dom(row, key) && !second(fieldpath.GetNestedField(row, key)) && !second(lookupRowField(row, key)) ==> result == nil
+
 extern hasStarArg
   props C14
   option pure
